@@ -45,7 +45,9 @@ VARIANTS = [
     B("sw-loop-short", "    for i in range(1, len(peak_values)):\n", "    for i in range(1, len(peak_values) - 1):\n", "R-SW-COVER", prop="C12"),
     B("sw-argmax-signed", "            i_max_set = np.argmax(np.abs(peak_values_set))\n            new_peak_indices.append(peak_indices_set[i_max_set])\n\n            last", "            i_max_set = np.argmax(peak_values_set)\n            new_peak_indices.append(peak_indices_set[i_max_set])\n\n            last", "R-SW-SEL", prop="C12"),
     B("sw-boundary-strict", "        if adj_val * last <= 0:  # only add index if sign changes (negative number)\n", "        if adj_val * last < 0:\n", "R-SW-SEL", prop="C12"),
-    B("sw-final-no-map", "    switched_peak_indices = np.take(peak_indices, new_peak_indices)\n", "    switched_peak_indices = np.array(new_peak_indices)\n", "R-SW-SEL", prop="C12"),
+    B("sw-final-no-map", "    switched_peak_indices = np.unique(np.take(peak_indices, new_peak_indices))\n", "    switched_peak_indices = np.unique(np.array(new_peak_indices))\n", "R-SW-SEL", prop="C12"),
+    # F16 (repaired in /repo 9449889): an all-zero series must not be reported as [0, 0]
+    B("f16-no-dedup", "    switched_peak_indices = np.unique(np.take(peak_indices, new_peak_indices))\n", "    switched_peak_indices = np.take(peak_indices, new_peak_indices)\n", "R-SW-SEL", prop="C12"),
     T("sw-seed-name", "    last = peak_values[0]\n    new_peak_indices = []\n    peak_values_set = [peak_values[0]]\n", "    last = peak_values[0]\n    new_peak_indices = []\n    peak_values_set = [peak_values[0]]\n    # first excursion starts with the first peak\n", prop="C12"),
     T("zc-flipped-compare", "    through_zero_indices = np.where(sign_switch < 0)[0]\n", "    through_zero_indices = np.where(0 > sign_switch)[0]\n", prop="C12"),
     T("zc-np-sort", "    all_zc_indices.sort()\n", "    all_zc_indices = np.sort(all_zc_indices)\n", prop="C12"),
